@@ -3,5 +3,7 @@ CONSTANT MaxLen = 3
 CONSTANT Deviations = {}
 CONSTANT EmitCase = FALSE
 CONSTANT EmitMod = 1
+CONSTANT Alphabet = "A"
+CONSTANT MCFuelC = 60
 CONSTANT FUEL <- MCFuel
 INVARIANT NoFailInLoop
